@@ -412,6 +412,15 @@ func genAlt(w *run.W, mine func() bool) {
 	for d := -span; d <= span; d++ {
 		ints = append(ints, uint64(d)) // around 0 and around 2^64
 	}
+	// every power of ten up to 10^19 (where the digit count, on which parsers branch, changes), +-2
+	for p := uint64(10); ; p *= 10 {
+		for d := int64(-2); d <= 2; d++ {
+			ints = append(ints, p+uint64(d), -p+uint64(d))
+		}
+		if p == 1e19 {
+			break
+		}
+	}
 	for i := 0; i < w.Pick(1000, 20000); i++ {
 		ints = append(ints, r.Uint64(), r.Uint64()>>uint(r.IntN(64)), uint64(-int64(r.Uint64()>>uint(r.IntN(64)))))
 	}
